@@ -192,6 +192,7 @@ type NodeEnv struct {
 
 	sharedBoard storage.Storage
 	states      []*state.LevelDBState // every LevelDB handle opened for this node (closed by Close)
+	SP          *services.ServiceProvider
 }
 
 func NewNodeEnv(base, user string) *NodeEnv {
@@ -261,6 +262,7 @@ func (e *NodeEnv) buildNode(st state.State, board storage.Storage) node.NodeServ
 	if err != nil {
 		panic(err)
 	}
+	e.SP = &sp
 	return n
 }
 
